@@ -578,6 +578,17 @@ func (c *evalCtx) binary(x *EBinary) Term {
 		a = c.concrete(a)
 		return w.shift(x.Op, a, b)
 	}
+	if (x.Op == "==" || x.Op == "!=") && ((a.Sort.Kind == KSlice && b.Sort.Kind == KUntypedNil) || (b.Sort.Kind == KSlice && a.Sort.Kind == KUntypedNil)) {
+		sl := a
+		if a.Sort.Kind != KSlice {
+			sl = b
+		}
+		eq := fmt.Sprintf("(= (s-arr %s) 0)", sl.S)
+		if x.Op == "!=" {
+			eq = "(not " + eq + ")"
+		}
+		return Term{eq, sortBool}
+	}
 	a, b = c.unify(a, b)
 	if a.Sort.Kind == KUntypedInt {
 		av, _ := new(big.Int).SetString(a.S, 10)
